@@ -48,7 +48,7 @@ pub const EXCLUDE_HASH_MAP_RETAIN_MUTATION: bool = true;
 pub const EXCLUDE_HASH_SET_PARTIAL_EQ: bool = true;
 /// D14: an *incremental* subscription taken after `done()` yields a mirror that stops after the
 /// first initial-value event (its `done` flag is pre-set and ends the mirror task).
-pub const EXCLUDE_INCREMENTAL_AFTER_DONE: bool = true;
+pub const EXCLUDE_INCREMENTAL_AFTER_DONE: bool = false;
 /// D15: a subscription to a mirror that is still loading its incremental initial value forwards
 /// `InitialComplete`, which cannot be serialised: a remote second-level subscriber is cut off.
 pub const EXCLUDE_REMOTE_SUB_OF_LOADING_MIRROR: bool = true;
